@@ -830,9 +830,13 @@ class Object(base.Symbolic, metaclass=ObjectMeta):
     if type(self) is not type(other):
       return base.lt(self, other)
     lattrs, rattrs = self._sym_attributes, other._sym_attributes  # pylint: disable=protected-access
-    if list(lattrs.keys()) == list(rattrs.keys()):
-      # Fields are compared in their declaration order.
+    if (self.__class__.__schema__.dynamic_field is None
+        and list(lattrs.keys()) == list(rattrs.keys())):
+      # All fields are declared: they are compared in their declaration order.
       return base.lt(list(lattrs.sym_values()), list(rattrs.sym_values()))
+    # Fields with variable keys (e.g. `**kwargs`) are compared as a dict, whose
+    # order does not depend on the order in which the keys were given (neither
+    # does `sym_eq`).
     return base.lt(lattrs, rattrs)
 
   def sym_hash(self) -> int:
